@@ -79,6 +79,11 @@ def r30_cli_flow(ctx):
                       None)
             loop_ok = lp is not None and t is not None and any(
                 lp is x for st in t.body for x in ast.walk(st))
+            if lp is None and isinstance(parent(c), ast.Call) and \
+                    c in parent(c).args:
+                # consumed by the expression it is an argument of
+                # ('\n'.join(islice(gen, n))): that statement is in the try
+                loop_ok = inside
         rep.check(inside and good_handler and loop_ok, rule,
                   ctx.fkey(main, None, "in-try:" + c.func.attr), main.loc(c),
                   "%s runs inside `try ... except ValueError: sys.exit(exc)`"
@@ -324,20 +329,33 @@ def r30_cli_flow(ctx):
     # date_parse: the ISO 8601 branch parses with dump_as_parsed=True and
     # returns (point, point.dump_format)
     okf = False
-    ret = [n for n in walk_no_nested(dp.node) if isinstance(n, ast.Return)
-           and isinstance(n.value, ast.Tuple) and len(n.value.elts) == 2]
-    if ret:
-        ptv, fmv = U(ret[-1].value.elts[0]), U(ret[-1].value.elts[1])
-        parsed = any(
-            isinstance(n, ast.Assign) and U(n.targets[0]) == ptv and
-            isinstance(n.value, ast.Call) and
-            U(n.value.func).endswith("time_point_parser.parse") and any(
+    # date_parse itself or a private helper of the operator it hands the
+    # default-format case to
+    cands = [dp] + [m_ for nm, m_ in oper.methods.items()
+                    if nm.startswith("_") and not nm.startswith("__") and
+                    any(isinstance(c, ast.Call) and isinstance(
+                        c.func, ast.Attribute) and c.func.attr == nm
+                        for c in walk_no_nested(dp.node))]
+    for g in cands:
+        parsed_vars = {
+            U(n.targets[0]) for n in walk_no_nested(g.node)
+            if isinstance(n, ast.Assign) and isinstance(n.value, ast.Call)
+            and U(n.value.func).endswith("time_point_parser.parse") and any(
                 k.arg == "dump_as_parsed" and U(k.value) == "True"
-                for k in n.value.keywords) for n in walk_no_nested(dp.node))
-        kept = any(isinstance(n, ast.Assign) and U(n.targets[0]) == fmv and
-                   U(n.value) == ptv + ".dump_format"
-                   for n in walk_no_nested(dp.node))
-        okf = parsed and kept
+                for k in n.value.keywords)}
+        for n in walk_no_nested(g.node):
+            if not (isinstance(n, ast.Return) and isinstance(
+                    n.value, ast.Tuple) and len(n.value.elts) == 2):
+                continue
+            ptv, fmv = U(n.value.elts[0]), U(n.value.elts[1])
+            if ptv not in parsed_vars:
+                continue
+            direct = fmv == ptv + ".dump_format"
+            kept = any(isinstance(x, ast.Assign) and U(x.targets[0]) == fmv
+                       and U(x.value) == ptv + ".dump_format"
+                       for x in walk_no_nested(g.node))
+            if direct or kept:
+                okf = True
     pts = oper.methods["process_time_point_str"]
     okp = False
     for n in walk_no_nested(pts.node):
@@ -367,6 +385,16 @@ def r30_cli_flow(ctx):
     lp = [n for n in walk_no_nested(main.node) if isinstance(n, ast.For) and
           "iter_recurrence_str" in U(n.iter)]
     ok = False
+    if not lp:
+        # '\n'.join(islice(<iteration>, <... max_results ...>))
+        for n in walk_no_nested(main.node):
+            if isinstance(n, ast.Call) and U(n.func) == "'\\n'.join" and \
+                    len(n.args) == 1 and isinstance(n.args[0], ast.Call) and \
+                    U(n.args[0].func).split(".")[-1] == "islice" and \
+                    len(n.args[0].args) == 2 and \
+                    "iter_recurrence_str" in U(n.args[0].args[0]) and \
+                    ("%s.max_results" % argsv) in U(n.args[0].args[1]):
+                ok = True
     if lp:
         body = lp[0].body
         ok = len(body) == 2 and isinstance(body[0], ast.Expr) and \
